@@ -4,6 +4,7 @@ import contextlib
 import io
 import itertools
 import math
+import os
 import random
 
 from sim import bridge, models, runner, trace_model as tm, world_pipeline as wp
@@ -118,12 +119,18 @@ def image_of(results):
     import phyclone.process_trace.process_trace as ppt
 
     fs = wp.SimFS()
+    fs.manage("OUT")
     P = wp.PatchSet()
-    P.set(ppt, "gzip", fs.module())
+    fs.install(P, ppt)
     try:
         ppt.create_main_run_output(None, "OUT", results)
     finally:
         P.undo()
+    if "OUT" not in fs.images and os.path.exists("OUT"):
+        with open("OUT", "rb") as fh:
+            img = fh.read()
+        os.remove("OUT")
+        return img
     return fs.images["OUT"]
 
 
@@ -202,6 +209,86 @@ def check_table(results, table_text, newick, what, allow_empty_clones=False):
                 break
             clone_of_cluster[c] = cl
     return P
+
+
+def check_table_values(results, table_text, newick, what):
+    """The table's per-sample CCFs must be feasible on the written tree and attain, sample by sample, the same total
+    log-likelihood as the repository's own MAP-CCF routine on a tree of the same form (tie-robust: equal likelihood, not equal
+    indices).  Catches values that belong to another sample or another clone."""
+    from phyclone.process_trace.map import get_map_node_ccfs_and_clonal_prev_dicts
+
+    P = []
+    try:
+        f = output_forest(results, table_text, newick)
+    except Exception:
+        return P
+    res0 = results[min(results)]
+    data = res0["data"]
+    samples = [str(x) for x in res0["samples"]]
+    if not f.own:
+        return P
+    rows = tm.parse_table(table_text)
+    par = tm.parse_newick(newick)
+    labels = [l for l in par if l != "root"]
+    idx, clustered = name_index(results)
+    own_of_label = {}
+    for row in rows:
+        name = str(row["cluster_id"]) if clustered else row["mutation_id"]
+        if row["clone_id"] != "-1":
+            own_of_label.setdefault(row["clone_id"], set()).add(idx[name])
+    tree = bridge.build_tree(f, data)
+    ccfs, prev = get_map_node_ccfs_and_clonal_prev_dicts(tree)
+    G = data[0].value.shape[1]
+    arrays = monitors_node_logp(tree)
+    ch, roots = models.children_of(f)
+    tab = {}
+    for row in rows:
+        if row["clone_id"] != "-1":
+            tab[(row["clone_id"], row["sample_id"])] = float(row["ccf"])
+    label_of_node = {}
+    for i, own in enumerate(f.own):
+        for l, o in own_of_label.items():
+            if frozenset(o) == own and own:
+                label_of_node[i] = l
+    for si, sname in enumerate(samples):
+        tot_tab = 0.0
+        tot_ref = 0.0
+        vals = {}
+        usable = True
+        for i, own in enumerate(f.own):
+            if not own:
+                usable = False  # clones without mutations have no table rows; nothing to compare for this tree
+                break
+            l = label_of_node.get(i)
+            if l is None or (l, sname) not in tab:
+                usable = False
+                break
+            v = tab[(l, sname)]
+            k = int(round(v * (G - 1)))
+            if abs(k / (G - 1) - v) > 1e-9:
+                P.append(({"sub": "ccf_not_on_grid", "cmd": what}, "ccf %r of clone %s sample %s is not a grid value" % (v, l, sname)))
+                usable = False
+                break
+            vals[i] = v
+            tot_tab += float(arrays[own][si, k])
+            name = tree.labels[min(own)]
+            kr = int(round(float(ccfs[name][si]) * (G - 1)))
+            tot_ref += float(arrays[own][si, kr])
+        if not usable:
+            continue
+        feasible = all(vals[i] + 1e-9 >= sum(vals[c] for c in ch[i]) for i in vals) and sum(vals[r] for r in roots) <= 1 + 1e-9
+        if not feasible:
+            P.append(({"sub": "ccf_infeasible_on_tree", "cmd": what}, "sample %s: a clone's ccf is below the sum of its children's, or top-level clones exceed 1" % sname))
+        elif abs(tot_tab - tot_ref) > 1e-7 * max(1.0, abs(tot_ref)):
+            P.append(({"sub": "ccf_not_that_of_the_clone", "cmd": what},
+                      "sample %s: the table's CCFs give total log-likelihood %.9g on the written tree, the tree's own MAP CCFs give %.9g" % (sname, tot_tab, tot_ref)))
+    return P
+
+
+def monitors_node_logp(tree):
+    from sim import monitors
+
+    return {k: v[0] for k, v in monitors.node_arrays(tree).items() if k != "root"}
 
 
 def output_forest(results, table_text, newick):
@@ -396,6 +483,7 @@ def summary_task(item):
                     probs += [p for p in P if p[0]["sub"] == "command_failed"]
                     if o["ok"]:
                         probs += check_table(res_p, o["table"], o["newick"], "map")
+                        probs += check_table_values(res_p, o["table"], o["newick"], "map")
             top = r.choice([None, 1, 2, 100])
             o = wp.run_summaries(img, ("topology", top, True))
             out["commands"] += 1
@@ -411,6 +499,7 @@ def summary_task(item):
                         nwk = o["archive"].get("%s/%s.nwk" % (d, d))
                         if nwk is not None:
                             probs += check_table(res_p, txt, nwk, "topology-archive")
+                            probs += check_table_values(res_p, txt, nwk, "topology-archive")
         if prop in ("C16", "C12"):
             for wt in ("counts", "joint-likelihood"):
                 thr = r.choice([0.5, 0.5, 0.6, 0.75, 0.9, 1.0, round(r.uniform(0.5, 1.0), 3)])
@@ -427,6 +516,7 @@ def summary_task(item):
                     probs += [p for p in P if p[0]["sub"] == "command_failed"]
                     if o["ok"]:
                         probs += check_table(res_p, o["table"], o["newick"], "consensus")
+                        probs += check_table_values(res_p, o["table"], o["newick"], "consensus")
     seen = set()
     for key, detail in probs:
         ks = repr(sorted(key.items()))
